@@ -28,6 +28,13 @@ namespace rkcommon {
 
       explicit OwnedArray(T *data, size_t size);
 
+      // The base class points into 'dataBuf', so copies/moves must re-point it
+      OwnedArray(const OwnedArray &other);
+      OwnedArray(OwnedArray &&other);
+
+      OwnedArray &operator=(const OwnedArray &other);
+      OwnedArray &operator=(OwnedArray &&other);
+
       template <size_t SIZE>
       OwnedArray &operator=(std::array<T, SIZE> &rhs);
 
@@ -63,6 +70,42 @@ namespace rkcommon {
     inline OwnedArray<T>::OwnedArray(std::vector<T> &init) : dataBuf(init)
     {
       AbstractArray<T>::setPtr(dataBuf.data(), dataBuf.size());
+    }
+
+    template <typename T>
+    inline OwnedArray<T>::OwnedArray(const OwnedArray<T> &other)
+        : dataBuf(other.dataBuf)
+    {
+      AbstractArray<T>::setPtr(dataBuf.data(), dataBuf.size());
+    }
+
+    template <typename T>
+    inline OwnedArray<T>::OwnedArray(OwnedArray<T> &&other)
+        : dataBuf(std::move(other.dataBuf))
+    {
+      AbstractArray<T>::setPtr(dataBuf.data(), dataBuf.size());
+      other.reset();
+    }
+
+    template <typename T>
+    inline OwnedArray<T> &OwnedArray<T>::operator=(const OwnedArray<T> &other)
+    {
+      if (this != &other) {
+        dataBuf = other.dataBuf;
+        AbstractArray<T>::setPtr(dataBuf.data(), dataBuf.size());
+      }
+      return *this;
+    }
+
+    template <typename T>
+    inline OwnedArray<T> &OwnedArray<T>::operator=(OwnedArray<T> &&other)
+    {
+      if (this != &other) {
+        dataBuf = std::move(other.dataBuf);
+        AbstractArray<T>::setPtr(dataBuf.data(), dataBuf.size());
+        other.reset();
+      }
+      return *this;
     }
 
     template <typename T>
